@@ -1,8 +1,75 @@
 import Oracle.Util
+import MobiusModel.Chat
 /-! Oracle handlers for C12 (model functions exposed on the line protocol). -/
 namespace Oracle
 open Mobius
 
-def c12Handlers : List (String × Handler) := []
+def fnv64 (b : Bytes) : UInt64 :=
+  b.foldl (fun h x => (h ^^^ x.toUInt64) * 1099511628211) 14695981039346656037
+
+/-- Field data: hex when short, otherwise length and FNV-1a hash (keeps answer lines small). -/
+def dataStr (b : Bytes) : String := if b.length ≤ 40 then toHex b else s!"#{b.length}:{(fnv64 b).toNat}"
+
+def outStr (o : Out) : String :=
+  s!"{o.to}:{if o.isReply then 1 else 0}:{o.ty}:{o.err}:{o.reqId}" ++
+    String.join (o.fields.map fun f => s!",{f.ty}={dataStr f.data}")
+
+def outsStr (os : List Out) : String := if os.isEmpty then "." else ";".intercalate (os.map outStr)
+
+def optNum (s : String) : Option Nat := if s = "-" then none else some (num s)
+def optHex (s : String) : Option Bytes := if s = "none" then none else some (hexb s)
+
+def parseChatEvs : List String → List ChatEv
+  | "L" :: l :: an :: ac :: nm :: ic :: rest => .login (hexb l) (hexb an) (hexb ac) (hexb nm) (hexb ic) :: parseChatEvs rest
+  | "D" :: a :: rest => .disconnect (num a) :: parseChatEvs rest
+  | "N" :: a :: r :: t :: c :: rest => .inviteNew (num a) (num r) (num t) (num c) :: parseChatEvs rest
+  | "I" :: a :: r :: t :: c :: rest => .invite (num a) (num r) (num t) (num c) :: parseChatEvs rest
+  | "J" :: a :: r :: c :: rest => .join (num a) (num r) (num c) :: parseChatEvs rest
+  | "V" :: a :: r :: c :: rest => .leave (num a) (num r) (num c) :: parseChatEvs rest
+  | "R" :: a :: r :: c :: rest => .decline (num a) (num r) (num c) :: parseChatEvs rest
+  | "S" :: a :: r :: c :: s :: rest => .setSubject (num a) (num r) (num c) (hexb s) :: parseChatEvs rest
+  | "M" :: a :: r :: c :: o :: m :: rest => .send (num a) (num r) (optNum c) (optHex o) (hexb m) :: parseChatEvs rest
+  | _ => []
+
+def insertNat (x : Nat) : List Nat → List Nat
+  | [] => [x]
+  | y :: ys => if x ≤ y then x :: y :: ys else y :: insertNat x ys
+
+def chatStateStr (w : ChatWorld) : String :=
+  let ids := ",".intercalate (w.reg.clients.map fun c => toString c.id)
+  let cids := (w.chats.map (·.id)).foldr insertNat []
+  let chats := cids.map fun cid =>
+    match w.chat cid with
+    | some ch => s!"{cid}/{toHex ch.subject}/" ++ ",".intercalate (ch.members.map fun m => toString m.1)
+    | none => ""
+  s!"ids={ids} chats=" ++ ";".intercalate chats
+
+/-- Per-connection inboxes: run the history, route every output through `deliver` on the state after its event. -/
+def chatInboxes (w : ChatWorld) : List ChatEv → List (Nat × Out)
+  | [] => []
+  | e :: es =>
+    let (w1, os) := w.step e
+    (os.filterMap fun o => (deliver w1.reg o).map fun k => (k, o)) ++ chatInboxes w1 es
+
+def c12Handlers : List (String × Handler) := [
+  ("c12run", fun (a : List String) =>
+    let evs := parseChatEvs a
+    let (w, outs) := ChatWorld.init.run evs
+    s!"{evs.length} " ++ " | ".intercalate (outs.map outsStr) ++ " || " ++ chatStateStr w),
+  ("c12inbox", fun (a : List String) =>
+    let evs := parseChatEvs a
+    let log := chatInboxes ChatWorld.init evs
+    let conns := (log.map (·.1)).foldr (fun k acc => if acc.contains k then acc else insertNat k acc) []
+    " | ".intercalate (conns.map fun k => s!"{k}>" ++ outsStr ((log.filter (·.1 == k)).map (·.2)))),
+  ("chattext", fun (a : List String) => match a with
+    | [nm, em, msg] => toHex (chatText (hexb nm) (em == "1") (hexb msg))
+    | _ => "bad-op"),
+  ("pad13", fun (a : List String) => match a with
+    | [nm] => toHex (pad13 (hexb nm))
+    | _ => "bad-op"),
+  ("runecount", fun (a : List String) => match a with
+    | [s] => toString (runeCount (hexb s))
+    | _ => "bad-op")
+]
 
 end Oracle
